@@ -26,6 +26,9 @@ type vpConn struct {
 	srvClosed bool
 	stall     bool          // the server reads but never answers
 	delay     time.Duration // the server answers this much later
+	failWriteAfter int       // Write fails once this many requests have been accepted (0: never)
+	failWriteCall  int       // the n-th Write call (and every later one) fails (0: never)
+	writeCalls     int
 	closed    int
 	closeCh   chan struct{}
 }
@@ -54,6 +57,13 @@ func (c *vpConn) Read(b []byte) (int, error) {
 func (c *vpConn) Write(b []byte) (int, error) {
 	if c.closed > 0 || c.srvClosed {
 		return 0, errVlClosed
+	}
+	c.writeCalls++
+	if c.failWriteAfter > 0 && c.requests >= c.failWriteAfter {
+		return 0, errVcWrite
+	}
+	if c.failWriteCall > 0 && c.writeCalls >= c.failWriteCall {
+		return 0, errVcWrite
 	}
 	c.wrote = append(c.wrote, b...)
 	// the server side: answer every complete request
@@ -182,7 +192,11 @@ func vhC04Pipeline() {
 func vhC38Deadlines() {
 	K := vParam("calls", 3)
 	const T = 100 * time.Millisecond
-	mode := vChoose("server", 4) // answers, stalls, answers after 150 ms, closes after the first request
+	// answers; stalls; answers after 150 ms; closes after the first request;
+	// takes the first write (one batch of requests) without answering and
+	// fails the next write
+	mode := vChoose("server", 5)
+	spaced := vBool("callsSpacedBy10ms")
 	var conns []*vpConn
 	pc := &PipelineClient{Addr: "a.co:80", MaxConns: 1, MaxPendingRequests: 1 + vChoose("maxPending", 2), MaxBatchDelay: time.Millisecond}
 	pc.Dial = func(addr string) (net.Conn, error) {
@@ -196,6 +210,11 @@ func vhC38Deadlines() {
 			if len(conns) == 0 {
 				c.dieAfter = 1
 			}
+		case 4:
+			if len(conns) == 0 {
+				c.stall = true
+				c.failWriteCall = 2
+			}
 		}
 		conns = append(conns, c)
 		return c, nil
@@ -208,11 +227,11 @@ func vhC38Deadlines() {
 	}
 	res := make([]out, K)
 	done := make(chan int, K)
-	start := time.Now()
 	for i := 0; i < K; i++ {
 		i := i
 		// calls without a deadline only against servers that answer (late) or close
-		withDeadline := mode == 1 || vBool("withDeadline")
+		withDeadline := mode == 1 || mode == 4 || vBool("withDeadline")
+		t0 := time.Now()
 		go func() {
 			var req Request
 			var resp Response
@@ -223,9 +242,12 @@ func vhC38Deadlines() {
 			} else {
 				err = pc.Do(&req, &resp)
 			}
-			res[i] = out{err, string(resp.Body()), time.Since(start), withDeadline}
+			res[i] = out{err, string(resp.Body()), time.Since(t0), withDeadline}
 			done <- i
 		}()
+		if spaced {
+			time.Sleep(10 * time.Millisecond)
+		}
 	}
 	for i := 0; i < K; i++ {
 		<-done
